@@ -59,6 +59,7 @@ def parseFs (root : Bytes) (fl : CfgFlags) (s : String) : Option Fs :=
             (match fs.lookup (rootCs ++ pc.dropLast ++ [bytesOfString (h.drop 1).toString]) with
              | some (.file c) => some c
              | _ => none)
+          else if h = "|" then some []     -- a FIFO: only hostile batches name it; the model sees an empty file
           else parseContent h
         pure ((withParents fs pc).set (rootCs ++ pc) (.file c))
       | _ => none) (anc ++ base)
@@ -254,7 +255,7 @@ def multiLine (toks : List String) : String :=
         let cls := if cfg.singlePort then "L" else "T"
         let one (acc : Option (Fs × List String)) (spec : String) : Option (Fs × List String) := do
           let (fs, outs) ← acc
-          match spec.splitOn ":" with
+          match (match spec.splitOn ":" with | "D" :: rest => "d" :: rest | other => other) with   -- `D` = `d` with the request sent twice
           | ["d", name, b, w] =>
             let os : List TransferOption := [{ option := .blksize, value := (← b.toNat?) }, { option := .windowsize, value := (← w.toNat?) }]
             let r := handleRrq cfg fs0 (bytesOfString name) os
